@@ -5,7 +5,10 @@
    consumed per round, so the length of the input is enough fuel).  Definitions only; theorems in Cbor/TagScanFacts.v. *)
 From Verif Require Import Base.Prim Cbor.Codec.
 
-Definition is_share (t : Z) : bool := (t =? 25) || (t =? 28) || (t =? 29) || (t =? 256).
+(* the tags refused before decoding: value sharing (28, 29), string references (25, 256) and, since F24, the number / text formats whose
+   decoding is not linear (4 decimal fraction, 5 bigfloat, 30 rational, 35 regular expression, 36 MIME message) *)
+Definition is_share (t : Z) : bool :=
+  (t =? 4) || (t =? 5) || (t =? 25) || (t =? 28) || (t =? 29) || (t =? 30) || (t =? 35) || (t =? 36) || (t =? 256).
 
 (* while pending and pending[-1] == 0: pending.pop() *)
 Fixpoint pop0 (st : list (option Z)) : list (option Z) :=
